@@ -19,18 +19,20 @@ MANIFEST = {
                   'lemmas over these formulas: cell x k => D x k^2, density / k^3, speed and amplitudes x k; time step x s => D / s; the '
                   'telescoping lemma: the speeds of an atom sum to its final distance, so its amplitudes (a partition of the speed row) do too; '
                   'identical motion => centre-of-mass displacement = common displacement (induction lemma) => Haven ratio one. '
-                  'The amplitudes loop (sign-flip splitting) and meanfreq are bounded only.',
+                  'amplitudes(): loop invariant over the real sign-flip splitting - for every atom the chunks of np.array_split cover its whole speed row '
+                  '(ascending cut points in range: obligation of the assumed array_split contract) and each amplitude is the sum of the speeds of its chunk. '
+                  'meanfreq / periodogram is bounded only.',
     'level_note': 'Trusted: FloatWithUnit behaves as float, uncertainties.ufloat, numpy mean/std/diff/average contracts, scipy.signal.periodogram '
                   '(homogeneity P(kx) = k^2 P(x), f proportional to fs), atomic masses positive, callee contracts of '
                   'distances_from_base_position (C01) and center_of_mass, floats as reals, pyvc itself.',
     'technique': 'deductive: VCs from the real AST of the TrajectoryMetrics methods, relational/induction lemmas over the proved formulas; z3/cvc5; '
                  'native replay; random trajectories with scale factors as bounded stand-in',
 }
-UNITS = ['unit_formulas', 'unit_center_of_mass', 'unit_speed_freq', 'unit_std', 'unit_lemmas', 'unit_dependencies']
+UNITS = ['unit_formulas', 'unit_center_of_mass', 'unit_speed_freq', 'unit_amplitudes', 'unit_std', 'unit_lemmas', 'unit_dependencies']
 BOUNDED = ['bounded_metrics']
-META = {'clauses': {'formulas': 'P', 'scaling': 'P (lemmas over the formulas) + A (periodogram homogeneity)', 'amplitudes partition': 'P (telescoping lemma) + B (real splitting loop)',
+META = {'clauses': {'formulas': 'P', 'scaling': 'P (lemmas over the formulas) + A (periodogram homogeneity)', 'amplitudes partition': 'P (loop invariant over the real splitting + telescoping lemmas)',
                     'identical motion => Haven 1': 'P (lemma) + B'},
-        'not_decided': ['the amplitudes loop itself (np.array_split at sign flips) is exercised only by the bounded stand-in', 'meanfreq / periodogram internals']}
+        'not_decided': ['meanfreq / periodogram internals (assumed homogeneity), numpy.array_split contract (assumed; its preconditions are obligations)']}
 
 ANG = z3.RealVal('1/10000000000')
 
@@ -237,6 +239,125 @@ def unit_speed_freq(tier):
         return [('(mean, std) of the per-atom mean frequencies', z3.BoolVal(bool(ok))),
                 ('mean frequency of the speed sampled at 1/dt', z3.And(z3.BoolVal(rec.get('x') is st['sp']), (fs == 1 / st['dt']) if z3.is_expr(fs) else z3.BoolVal(False)))]
     u.prove_function('gemdat.metrics', 'TrajectoryMetrics.attempt_frequency', setup_f, post_f, raises=())
+    return u
+
+
+def unit_amplitudes(tier):
+    """TrajectoryMetrics.amplitudes: for every atom the speed row is cut (np.array_split at the sign flips) into consecutive chunks covering the
+    whole row, and the amplitudes are the chunk sums, atom after atom.  With the telescoping lemmas of C14.lemmas the amplitudes of an atom
+    therefore sum to the sum of its speeds = its final distance."""
+    from verif.engine.interp import LoopSpec
+    from verif.engine.core import Unsupported
+    u = Unit('C14.amplitudes')
+    install_common(u)
+    I = z3.IntSort()
+    FN = 'gemdat.metrics.TrajectoryMetrics.amplitudes'
+    spd = z3.Function('speed', I, I, z3.RealSort())  # speed[a, t]
+    PS = z3.Function('prefix_sum', I, I, z3.RealSort())  # PS(a, k) = sum_{t<k} speed[a, t]
+    E = z3.Function('edge', I, I, I)  # ghost: E(a, j) = start of chunk j of atom a (defined by the code's own split points)
+    M = z3.Function('n_chunks', I, I)
+    OFF = z3.Function('first_amplitude_of', I, I)
+    rec = {}
+
+    def setup(interp):
+        ctx = interp.ctx
+        T, N = z3.Int('T'), z3.Int('N')
+        ctx.assume(z3.And(T >= 1, N >= 1))
+        m = SObj('TrajectoryMetrics')
+        u.contracts['gemdat.metrics.TrajectoryMetrics.speed'] = lambda ii, self: STensor((N, T), lambda a, t: spd(to_z3(a), to_z3(t)), 'real')
+        rec.clear()
+        return [m], {}, {'T': T, 'N': N}
+
+    def defs(ctx):
+        if ctx.ghost.get('c14_amp_defs'):
+            return
+        ctx.ghost['c14_amp_defs'] = True
+        a, k = z3.Ints('ga gk')
+        ctx.assume(z3.And(OFF(0) == 0, z3.ForAll([a], z3.Implies(a >= 0, OFF(a + 1) == OFF(a) + M(a)), patterns=[OFF(a + 1)])), tag='ghost definition: first_amplitude_of')
+        ctx.assume(z3.ForAll([a, k], z3.And(PS(a, 0) == 0, z3.Implies(k >= 0, PS(a, k + 1) == PS(a, k) + spd(a, k))), patterns=[PS(a, k + 1)]),
+                   tag='definition: prefix sums of the speed row of every atom')
+
+    def array_split(interp, line, row, idx):
+        """numpy.array_split(row, indices): sections row[0:i0], row[i0:i1], ..., row[i_last:]  (assumed contract)"""
+        ctx = interp.ctx
+        ctx.use('numpy.array_split(a, sorted indices): consecutive sections a[0:i0], a[i0:i1], ..., a[i_last:]')
+        a = rec.get('atom')
+        if a is None:
+            raise Unsupported('array_split outside the per-atom loop', line)
+        n = row.shape[0]
+        it = V.as_tensor(idx)
+        m = it.shape[0]
+        j = z3.Int('ej')
+        # obligations of the contract: indices ascending and inside [0, n]
+        ctx.oblige(f'{interp.cur_func}.array_split-indices-ascending-in-range@{line}', z3.ForAll([j], z3.Implies(z3.And(j >= 0, j < to_z3(m)), z3.And(
+            to_z3(it.at(j)) >= 0, to_z3(it.at(j)) <= to_z3(n), z3.Implies(j + 1 < to_z3(m), to_z3(it.at(j)) <= to_z3(it.at(j + 1)))))), kind='pre', line=line)
+        # ghost definition of this atom's edges (a is the arbitrary iteration index; E(a,.) and M(a) are constrained nowhere else)
+        ctx.assume(z3.And(M(a) == to_z3(m) + 1, E(a, 0) == 0, E(a, to_z3(m) + 1) == to_z3(n),
+                          z3.ForAll([j], z3.Implies(z3.And(j >= 0, j < to_z3(m)), E(a, j + 1) == to_z3(it.at(j))), patterns=[E(a, j + 1)])), tag='ghost definition: edges of the chunks of this atom')
+        rf = row.fn
+
+        def chunk(jj):
+            jz = to_z3(jj)
+            lo, hi = E(a, jz), E(a, jz + 1)
+            t = STensor((hi - lo,), lambda i: rf(lo + to_z3(i)), 'real')
+            t.chunk = (a, lo, hi, row)
+            return t
+        return SSeq(binop_add(m, 1), chunk)
+
+    def binop_add(x, y):
+        return V.binop('+', x, y)
+
+    def np_sum(interp, line, x, axis=None):
+        ch = getattr(x, 'chunk', None)
+        if ch is None:
+            return u.np.f_sum(interp, line, x, axis=axis)
+        a, lo, hi, row = ch
+        ctx = interp.ctx
+        ctx.use('numpy.sum of a contiguous section = difference of prefix sums (recursive spec function)')
+        k = z3.Int('pk')
+        rf = row.fn
+        if not ctx.suppress_obligations if hasattr(ctx, 'suppress_obligations') else True:
+            ctx.oblige(f'{interp.cur_func}.summed-section-is-cut-from-the-speed-row-of-this-atom@{line}',
+                       z3.ForAll([k], z3.Implies(z3.And(k >= 0, k < to_z3(row.shape[0])), V.to_real(rf(k)) == spd(a, k))), kind='pre', line=line)
+        return PS(a, hi) - PS(a, lo)
+    u.lib['numpy.array_split'] = array_split
+    u.lib['numpy.sum'] = np_sum
+    u.lib['numpy.asarray'] = lambda interp, line, x, **k: STensor((x.length,), (lambda f: (lambda i: f(to_z3(i))))(x.fn), 'real') if isinstance(x, SSeq) else u.np.f_array(interp, line, x)
+
+    def maker(interp, env, k):
+        ctx = interp.ctx
+        g = ctx.fresh_fun('amplitude', I, z3.RealSort())
+        L = ctx.fresh_int('n_amplitudes')
+        ctx.assume(L >= 0)
+        return SSeq(L, lambda j: g(to_z3(j)))
+
+    def invariant(interp, env, k):
+        ctx = interp.ctx
+        defs(ctx)
+        kz = to_z3(k)
+        if getattr(interp, 'inv_mode', 'prove') == 'assume':
+            rec['atom'] = kz  # the atom handled by the iteration that follows
+        out_ = env.get('amplitudes', interp)
+        if isinstance(out_, list):
+            return [('empty at entry', z3.BoolVal(len(out_) == 0 and True))] + ([('offset', OFF(0) == 0)])
+        a, j = z3.Ints('ia ij')
+        return [('length = number of chunks of the atoms done', to_z3(out_.length) == OFF(kz)),
+                ('every atom has at least one chunk, its chunks start at 0, end at T, with ascending edges', z3.ForAll([a], z3.Implies(z3.And(a >= 0, a < kz), z3.And(
+                    M(a) >= 1, E(a, 0) == 0, E(a, M(a)) == interp.ctx.ghost['state']['T'])), patterns=[M(a)])),
+                ('amplitude j of atom a = sum of its speeds over chunk j', z3.ForAll([a, j], z3.Implies(z3.And(a >= 0, a < kz, j >= 0, j < M(a)), z3.And(
+                    OFF(a) + j < to_z3(out_.length), to_z3(out_.fn(OFF(a) + j)) == PS(a, E(a, j + 1)) - PS(a, E(a, j)))), patterns=[E(a, j + 1)]))]
+    u.loops[(FN, 0)] = LoopSpec({'amplitudes': maker}, invariant)
+
+    def post(interp, st, res):
+        a, j, t = z3.Ints('pa pj pt')
+        N, T = st['N'], st['T']
+        return [('one amplitude per chunk, atom after atom', to_z3(res.shape[0]) == OFF(N)),
+                ('chunks of an atom cover its whole speed row', z3.ForAll([a], z3.Implies(z3.And(a >= 0, a < N), z3.And(M(a) >= 1, E(a, 0) == 0, E(a, M(a)) == T)), patterns=[M(a)])),
+                ('amplitude = sum of the speeds of its chunk', z3.ForAll([a, j], z3.Implies(z3.And(a >= 0, a < N, j >= 0, j < M(a)),
+                                                                                          to_z3(res.at(OFF(a) + j)) == PS(a, E(a, j + 1)) - PS(a, E(a, j))), patterns=[E(a, j + 1)])),
+                ]
+    u.prove_function('gemdat.metrics', 'TrajectoryMetrics.amplitudes', setup, post, raises=(),
+                     replay={'fn': 'verif.props.c14:replay_metrics', 'sizes': lambda st: [], 'concretise': lambda mm, st, ob: {'seed': 6}})
     return u
 
 
